@@ -3,7 +3,7 @@
 usage: seed_autoconfirm.py <seed-dir>...   (prints a summary per seed)"""
 import os, re, subprocess, sys
 def run(cmd, cwd, timeout=3000):
-    env = dict(os.environ, CARGO_TARGET_DIR="/verif/target/seedchk", CARGO_NET_OFFLINE="true")
+    env = dict(os.environ, CARGO_TARGET_DIR=os.environ.get("SEEDCHK_TARGET", "/verif/target/seedchk"), CARGO_NET_OFFLINE="true")
     try:
         p = subprocess.run(cmd, cwd=cwd, shell=True, env=env, stdout=subprocess.PIPE, stderr=subprocess.STDOUT, text=True, timeout=timeout)
         return p.returncode, p.stdout
